@@ -36,7 +36,14 @@ func mkRow(k int32, v string) Row {
 	return Row{ID: k, Cat: v, Score: scoreOf(v)}
 }
 
-func scoreOf(v string) int64 { return int64(v[0]-'a') + 1 }
+// scoreOf maps the indexed string value to the sorted index's value; "" (the zero value of
+// the lookup index) maps to 0 (the zero value of the sorted index).
+func scoreOf(v string) int64 {
+	if v == "" {
+		return 0
+	}
+	return int64(v[0]-'a') + 1
+}
 
 var ctx = context.Background()
 
@@ -154,8 +161,8 @@ func atom(kind string, vals []string, keys []int32) *ftree {
 
 func catalogue(nKeys int) []*ftree {
 	atoms := []*ftree{
-		atom("L", []string{"a"}, nil), atom("L", []string{"b"}, nil), atom("L", []string{"a", "b"}, nil),
-		atom("S", []string{"a"}, nil), atom("S", []string{"b"}, nil), atom("S", []string{"b", "a"}, nil),
+		atom("L", []string{""}, nil), atom("L", []string{"b"}, nil), atom("L", []string{"", "b"}, nil),
+		atom("S", []string{""}, nil), atom("S", []string{"b"}, nil), atom("S", []string{"b", ""}, nil),
 		atom("L", []string{"z"}, nil),
 		atom("K", nil, []int32{1}), atom("K", nil, []int32{1, 2}), atom("K", nil, []int32{}), atom("K", nil, []int32{2, 9}),
 		atom("P", nil, nil),
@@ -224,7 +231,7 @@ type sys struct {
 	queries   int
 }
 
-var vals = []string{"a", "b"}
+var vals = []string{"", "b"} // includes the zero value of both indexed fields
 
 func newSys(nKeys int, cat []*ftree) (*sys, error) {
 	store := memkv.New()
@@ -493,6 +500,31 @@ func (s *sys) Canon() string {
 		}
 		b.WriteString("}")
 	}
+	// digest of the REAL state, so that two paths the model considers equal are only merged
+	// when the implementation's observable state is equal too (otherwise a divergence reached
+	// through an already-seen model state would never be checked)
+	b.WriteString(" real:")
+	for ti := -1; ti < 2; ti++ {
+		if ti >= 0 && !s.txs[ti].open {
+			continue
+		}
+		h := s.handle(ti)
+		var rows []Row
+		_ = s.table.NewRetrieve().Entries(&rows).Exec(ctx, h)
+		sort.Slice(rows, func(i, j int) bool { return rows[i].ID < rows[j].ID })
+		fmt.Fprintf(&b, "%v", rows)
+		for _, v := range append([]string{"z"}, vals...) {
+			var hh gorp.Tx
+			if ti >= 0 {
+				hh = h
+			}
+			k1, e1 := s.lidx.Get(hh, v)
+			k2, e2 := s.sidx.Get(hh, scoreOf(v))
+			slices.Sort(k1)
+			slices.Sort(k2)
+			fmt.Fprintf(&b, "%v%v%v%v;", k1, e1 != nil, k2, e2 != nil)
+		}
+	}
 	return b.String()
 }
 
@@ -606,10 +638,10 @@ func (s *sys) Check() error {
 
 func (s *sys) checkOrdered(ti int, h gorp.Tx, view map[int32]string) error {
 	for _, dir := range []gorp.Direction{gorp.DirectionAsc, gorp.DirectionDesc} {
-		for cur := int64(-1); cur <= 3; cur++ { // -1 = no cursor
+		for cur := int64(-2); cur <= 3; cur++ { // -2 = no cursor
 			for limit := 0; limit <= 3; limit++ {
 				q := s.sidx.Ordered(dir)
-				if cur >= 0 {
+				if cur > -2 {
 					q = q.After(cur)
 				}
 				var rs []Row
@@ -625,7 +657,7 @@ func (s *sys) checkOrdered(ti int, h gorp.Tx, view map[int32]string) error {
 				var elig []Row
 				for k, v := range view {
 					r := mkRow(k, v)
-					if cur >= 0 && ((dir == gorp.DirectionAsc && r.Score <= cur) || (dir == gorp.DirectionDesc && r.Score >= cur)) {
+					if cur > -2 && ((dir == gorp.DirectionAsc && r.Score <= cur) || (dir == gorp.DirectionDesc && r.Score >= cur)) {
 						continue
 					}
 					elig = append(elig, r)
